@@ -3214,7 +3214,7 @@ class FuncProcessLines(ValueFunc):
         else:
             raise CklRuntimeError(
                 ValueString("ERROR"),
-                "Cannot process lines from " + inparg.toString(),
+                "Cannot process lines from " + inparg.type(),
                 pos,
             )
 
